@@ -299,7 +299,7 @@ def run_one(exe, name, k, k2=0):
                 site = e["site"]
         evs, rc, err = w.close()
         return {"site": site, "fresh": fresh, "old": old, "same": same, "rc": rc, "err": err,
-                "evs": evs,
+                "evs": evs, "urichain": [e for e in sim.log if e["e"] == "urichain"],
                 "allocs": [e for e in evs if e.get("e") == "shadow"], "crash": None,
                 "script": w.script}
     except world.WorldCrash as e:
@@ -361,6 +361,19 @@ def work(job):
                               "allocator shadow table not empty after teardown: %r" % sh)
             if sh["badfree"]:
                 run.violation("bad-free/%s/%s" % (name, site), witness, "%r" % sh)
+        for e in res.get("urichain", []):
+            # "fails cleanly (error return ...)": a helper that reports success has done all of
+            # its work - the list holds every option of the URI
+            want = "3=%s;7=04d2;11=62;11=63;15=%s;15=%s" % (b"example.org".hex(), b"x=1".hex(),
+                                                             b"y=A".hex())
+            if not e.get("dst"):
+                # (the session could not be made: without a destination to compare with, no
+                # Uri-Host is asked for)
+                want = want.split(";", 1)[1]
+            if e.get("r") == 1 and e.get("opts") != want:
+                run.violation("reported-success-but-incomplete/%s/%s" % (name, site), witness,
+                              "coap_uri_into_optlist() returned 1 with the option list %s "
+                              "(complete: %s)" % (e.get("opts"), want))
         if not res["fresh"]:
             run.violation("canary-failed/%s/%s" % (name, site), witness,
                           "a fresh exchange after the failure did not get its response")
